@@ -234,4 +234,5 @@ pub fn run(ctx: &mut Ctx) {
             ctx.check("forms", &r, &d);
         }
     }
+    crate::spaces::render_probes(ctx, &["missing", "missing_some"]);
 }
